@@ -766,3 +766,139 @@ def c12(tier):
 
 
 CHECKS["C12"] = c12
+
+
+# ----------------------------------------------------------------------- C19
+import itertools
+
+FE_ALPHABET = [43, 45, 48, 49, 57, 46, 101, 69, 110, 97, 105, 102, 116, 121, 120, 0]
+
+
+def frontend_inputs(tier):
+    rng = gen.rng_for("C19")
+    q = tier == "quick"
+    out = []
+
+    def add(b, tag):
+        out.append({"bytes": list(b), "tag": tag})
+
+    maxlen = 3 if q else 4
+    for n in range(0, maxlen + 1):
+        for t in itertools.product(FE_ALPHABET, repeat=n):
+            add(t, "short")
+    for _ in range(1500 if q else 60000):
+        n = rng.choice([4, 5, 5, 6, 7])
+        add([rng.choice(FE_ALPHABET) for _ in range(n)], "short-sample")
+    S = lambda s: s.encode("latin-1")
+    # special literals: every case pattern and proper prefixes, with signs and suffixes
+    for word in ("nan", "inf", "infinity"):
+        for k in range(1, len(word) + 1):
+            pre = word[:k]
+            pats = set()
+            for _ in range(12 if q else 80):
+                pats.add("".join(c.upper() if rng.random() < 0.5 else c for c in pre))
+            pats |= {pre, pre.upper(), pre.capitalize()}
+            for p in pats:
+                for sign in ("", "+", "-"):
+                    for suf in ("", "x", "1", "ity", "\x00"):
+                        add(S(sign + p + suf), "special")
+    # exponents of 1..25 digits, both signs: saturation instead of overflow
+    for nd in list(range(1, 26)):
+        for sign in ("", "+", "-"):
+            for lead in ("1", "0", "2147483647"[:min(nd, 10)], "9"):
+                digits = (lead + "".join(rng.choice("0123456789") for _ in range(nd)))[:nd]
+                for mant in ("1", "0", "1.5", "0.0000001", "123456789012345678901234567890"):
+                    add(S(mant + "e" + sign + digits), "exponent")
+    for e in ("2147483647", "2147483648", "-2147483648", "-2147483649", "2147483639", "21474836470", "-21474836480",
+              "+00000000000000000000000000012", "-000000000000000000000000000000400", "99999999999999999999"):
+        for mant in ("1", "0", "10", "0.1", ".5", "5."):
+            add(S(mant + "E" + e), "exponent-limit")
+            add(S("-" + mant + "e" + e + "e5"), "exponent-limit")
+    # zero runs, signs, dots, dangling pieces
+    for s in ("", "+", "-", ".", "+.", "-.", "e", "e5", ".e5", "-.e-5", "1e", "1e+", "1e-", "1.e", "1..2", "1.2.3", "--1", "+-1", "1e5e5",
+              "000", "000.000", "-0", "-0.0e0", "0e999999999999", "-0e-999999999999", "00012.3400", "000000000000000000000001",
+              "0.000000000000000000000000000001", "100000000000000000000000.000000000000", "1_000", "1,5", " 1", "1 ", "\t1", "１２",
+              "1e5x", "0x10", "1f", "1d", "1.5f32", "nan(1)", "in", "i", "n", "na", "infinit", "infinityy", "+nan", "-NAN", "iNf", "-iNFiNiTy!"):
+        add(S(s) if all(ord(c) < 256 for c in s) else s.encode("utf-8"), "edge")
+    # NUL / high bytes around numbers
+    for b in (0, 1, 47, 58, 127, 128, 255):
+        add([b], "byte")
+        add([49, b, 50], "byte")
+        add([b, 49], "byte")
+        add([49, 46, b], "byte")
+        add([49, 101, b, 50], "byte")
+    # long literals: midpoints with signs and suffixes
+    for F in (gen.F64, gen.F32):
+        for ef in rng.sample(range(0, F.emaxfield), 8 if q else 120):
+            bits = (ef << F.mbits) | rng.choice(gen.sig_patterns(F, rng, 2))
+            M, k = F.midpoint(bits)
+            ds, e10 = gen.exact_decimal(M, k)
+            for (i, f, e) in gen.forms(ds, e10, rng, nforms=2):
+                lit = ("000" if rng.random() < 0.3 else "") + i + ("." + f + ("00" if rng.random() < 0.3 else "") if f or rng.random() < 0.2 else "") + \
+                      (("e" if rng.random() < 0.5 else "E") + ("+" if e >= 0 and rng.random() < 0.5 else "") + str(e) if e or rng.random() < 0.3 else "")
+                add(S(rng.choice(["", "+", "-"]) + lit + rng.choice(["", " ", "x", "e", ".", "\x00\x006"])), "long")
+    # random bytes
+    for _ in range(500 if q else 20000):
+        n = rng.choice([1, 2, 5, 10, 30, 100])
+        add([rng.randrange(256) if rng.random() < 0.3 else rng.choice(b"0123456789.eE+-naifNAIF") for _ in range(n)], "random")
+    seen = set()
+    res = []
+    for r in out:
+        key = bytes(r["bytes"])
+        if key not in seen:
+            seen.add(key)
+            r["id"] = len(res) + 1
+            res.append(r)
+    return res
+
+
+def c19(tier):
+    t0 = time.time()
+    wd = core.workdir("C19")
+    q = tier == "quick"
+    mc = core.tlc(os.path.join(core.SPEC, "mc", "MC_FrontEnd.tla"),
+                  os.path.join(core.SPEC, "mc", "MC_FrontEnd.cfg" if q else "MC_FrontEnd_full.cfg"),
+                  "C19-mc", coverage=False, cont=False, timeout=3000, extra=["-maxSetSize", "2000000"])
+    if mc.errors or mc.distinct == 0:
+        raise core.ToolError("MC_FrontEnd failed: %s" % mc.errors[:3])
+    inputs = frontend_inputs(tier)
+    outs = run_records(wd, "run_frontend", inputs, ["std"], name="frontend")["std"]
+    if any(o["kind"] == "unextractable" for r in outs for o in r["outs"]):
+        raise core.ToolError("a front-end copy could not be extracted from the repository sources (harness/build.rs)")
+    recs = [{"id": r["id"], "bytes": r["bytes"], "outs": r["outs"]} for r in outs]
+    verdicts, res = tlc_records(wd, "CF_FrontEnd", recs, "C19")
+    violations = []
+    shapes = collections.Counter()
+    drift = 0
+    for rid, v in verdicts.items():
+        if v["verdict"] == "ok":
+            shapes["%s | %s" % (v["trail"][0], v["trail"][1])] += 1
+            if v["trail"][2] == "DRIFT":
+                drift += 1
+        else:
+            violations.append(core.write_replay("C19", {"property": "C19", "bytes": recs[rid - 1]["bytes"],
+                                                        "text": bytes(recs[rid - 1]["bytes"]).decode("latin-1"),
+                                                        "record": recs[rid - 1], "verdict": v}))
+    tags = collections.Counter(r["tag"] for r in inputs)
+    ncopies = len(recs[0]["outs"]) // 2
+    cov = {
+        "states": res.distinct + mc.distinct, "transitions": res.generated + mc.generated,
+        "traces_validated_against_impl": len(recs) * ncopies * 2, "evaluations": len(recs) * ncopies * 2,
+        "distinct_nontrivial": len(recs),
+        "rule": "MC_FrontEnd: scanner state machine = declarative longest-prefix definition on all strings up to length 4 (quick) / 5 "
+                "over 16 symbols. CF: all strings up to length 3 (quick) / 4 over the same alphabet, sampled longer ones, every case "
+                "pattern of nan / inf / infinity and their prefixes with signs and suffixes, exponents of 1..25 digits (saturation), "
+                "dangling pieces, NUL / high bytes, long midpoint literals with signs and suffixes, random bytes; every copy "
+                "extracted from the repository (example, fuzz target, integration test, 4 correctness tools) x f32/f64; TLC "
+                "requires value (oracle), sign, exact suffix, outcome = value",
+        "samples": [{"text": bytes(r["bytes"]).decode("latin-1")[:60], "tag": r["tag"]} for r in inputs[:: max(1, len(inputs) // 8)]][:10],
+        "families": dict(tags), "shapes (with specials | without)": dict(shapes), "scanner_model_drift": drift,
+        "copies": ncopies, "mc_strings": mc.distinct // 2, "tlc_cmd": res.cmd, "exhaustive": False,
+    }
+    core.write_evidence("C19", tier, "model_checking", cov, time.time() - t0, len(violations),
+                        assumptions=["copies are extracted textually from the repository files by harness/build.rs (from fn parse_sign to the end "
+                                     "of fn parse_float) and compiled against /repo"])
+    core.finish("C19", violations, [])
+
+
+CHECKS["C19"] = c19
